@@ -186,7 +186,8 @@ def cextIoprioGet (shift : Nat) (k : Kernel) (pid : Nat) : Except NErr (Nat × N
   | .ok v => .ok (ioprioUnpack shift v)
 
 /-- an optional argument check in `psutil_proc_ioprio_set` before the packing:
-    `if (ioclass < a || ioclass > b || iodata < c || iodata > d)` → ValueError -/
+    `if (ioclass < a || ioclass > b || iodata < c || iodata > d)` → ValueError, or
+    OSError(EINVAL) when `einval` -/
 def outOfNativeRange (range : Option (Int × Int × Int × Int)) (cls data : Int) : Bool :=
   match range with
   | none => false
@@ -194,10 +195,10 @@ def outOfNativeRange (range : Option (Int × Int × Int × Int)) (cls data : Int
 
 /-- `psutil_proc_ioprio_set`: two `"i"` conversions, (the optional range check,) `(class << SHIFT) | data` in C `int`
     arithmetic (defined only while the result stays a non-negative `int`), the syscall -/
-def cextIoprioSet (shift : Nat) (range : Option (Int × Int × Int × Int)) (k : Kernel) (pid : Nat)
-    (cls data : Int) : Except NErr Kernel :=
+def cextIoprioSet (shift : Nat) (range : Option (Int × Int × Int × Int)) (einval : Bool) (k : Kernel)
+    (pid : Nat) (cls data : Int) : Except NErr Kernel :=
   if !(fitsCInt cls && fitsCInt data) then .error .overflowError
-  else if outOfNativeRange range cls data then .error .valueError
+  else if outOfNativeRange range cls data then .error (if einval then .os .EINVAL else .valueError)
   else if cls < 0 ∨ data < 0 then .error .undefinedC
   else
     let v := ioprioPack shift cls.toNat data.toNat
@@ -271,6 +272,8 @@ structure Cfg where
   /-- bounds `(a, b, c, d)` of a range check on (ioclass, iodata) in `psutil_proc_ioprio_set`
       before the packing, if there is one -/
   nativeRange : Option (Int × Int × Int × Int)
+  /-- that check raises OSError(EINVAL) (true) or ValueError (false) -/
+  nativeRangeEinval : Bool
   /-- `if value is None: value = defaultLevel` in `ionice_set` -/
   defaultLevel : Int
   /-- `value < levelMin or value > levelMax` in `ionice_set` -/
@@ -346,7 +349,7 @@ def ioniceSet (c : Cfg) (k : Kernel) (pid : Nat) (ioclass : Int) (value : Option
   let value := value.getD c.defaultLevel
   if value ≠ 0 ∧ c.noValueClasses.contains ioclass then (.exc .valueError, k)
   else if value < c.levelMin ∨ value > c.levelMax then (.exc .valueError, k)
-  else match cextIoprioSet c.shift c.nativeRange k pid ioclass value with
+  else match cextIoprioSet c.shift c.nativeRange c.nativeRangeEinval k pid ioclass value with
     | .ok k' => (.ok .none, k')
     | .error e => (.exc (wrapExc pid e), k)
 
